@@ -93,6 +93,8 @@ func typeText(e ast.Expr) string {
 		if id, ok := x.X.(*ast.Ident); ok {
 			return id.Name + "." + x.Sel.Name
 		}
+	case *ast.IndexExpr: // atomic.Pointer[T]
+		return typeText(x.X)
 	case *ast.Ident:
 		return x.Name
 	case *ast.ChanType:
@@ -187,6 +189,13 @@ func (p *srcPkg) forEachPkgVarMutation(n ast.Node, imports map[string]string, si
 			}
 			m := sel.Sel.Name
 			kind := p.kinds[id.Name]
+			if strings.HasPrefix(kind, "atomic.") && kind != "atomic.Value" {
+				// typed atomics (atomic.Uint64, atomic.Int32, atomic.Pointer[T], …): every method but Load updates the cell
+				if m != "Load" {
+					sink(id.Name, "atomic", s.Pos())
+				}
+				return true
+			}
 			if (containerLike[kind] && !containerReadOnly[m]) || mutatingMethod[m] {
 				sink(id.Name, "call:"+m, s.Pos())
 			}
@@ -730,5 +739,142 @@ func sharedObjectWriteFacts(root string, pkg string) ([]objWrite, error) {
 		}
 		return a.Kind < b.Kind
 	})
+	return out, nil
+}
+
+// ---------------------------------------------------------------- where the value of a package-level counter flows
+
+// counterFlows: for every place where the value of package-level variable `name` of package pkg is
+// obtained (result of an atomic Add / Load / method Add / plain read), where does the value go?
+// "instanceID"  = (through fmt.Sprint / Sprintf / strconv / a conversion / one local variable) into the field
+//                 instanceID (first field) of a baseRuntime literal;
+// "other:<ctx>" = into a condition, an operator, an index, a return value, another field — the value
+//                 influences something else (refutes "flows only into instanceID");
+// "unknown:<ctx>" = a context the extractor does not judge.
+func counterFlows(root, pkg, name string) ([][2]string, error) {
+	p, err := loadSrcPkg(filepath.Join(root, pkg))
+	if err != nil {
+		return nil, err
+	}
+	var out [][2]string
+	seen := map[[2]string]bool{}
+	for _, f := range p.files {
+		for _, d := range f.Decls {
+			fd, ok := d.(*ast.FuncDecl)
+			if !ok || fd.Body == nil || (fd.Name.Name == "init" && fd.Recv == nil) {
+				continue
+			}
+			fn := funcName(p.name, fd)
+			parents := map[ast.Node]ast.Node{}
+			var stack []ast.Node
+			ast.Inspect(fd.Body, func(n ast.Node) bool {
+				if n == nil {
+					stack = stack[:len(stack)-1]
+					return true
+				}
+				if len(stack) > 0 {
+					parents[n] = stack[len(stack)-1]
+				}
+				stack = append(stack, n)
+				return true
+			})
+			var classify func(n ast.Node, depth int) string
+			classify = func(n ast.Node, depth int) string {
+				for {
+					par := parents[n]
+					switch x := par.(type) {
+					case *ast.ParenExpr:
+						n = par
+						continue
+					case *ast.UnaryExpr: // &counter inside atomic.AddUint64(&counter, 1)
+						n = par
+						continue
+					case *ast.SelectorExpr: // counter.Add / counter.Load
+						n = par
+						continue
+					case *ast.CallExpr:
+						if sel, ok := x.Fun.(*ast.SelectorExpr); ok {
+							if id, ok := sel.X.(*ast.Ident); ok && (id.Name == "atomic" || id.Name == "fmt" || id.Name == "strconv") {
+								n = par
+								continue
+							}
+							if sel == n { // method call on the counter itself
+								if sel.Sel.Name == "Store" || sel.Sel.Name == "CompareAndSwap" || sel.Sel.Name == "Swap" {
+									return "other:" + sel.Sel.Name
+								}
+								n = par
+								continue
+							}
+						}
+						if id, ok := x.Fun.(*ast.Ident); ok && (id.Name == "string" || id.Name == "uint64" || id.Name == "int") {
+							n = par
+							continue
+						}
+						return "unknown:argument of a call"
+					case *ast.CompositeLit:
+						if typeNameOf(x.Type) == "baseRuntime" && len(x.Elts) > 0 && x.Elts[0] == n {
+							return "instanceID"
+						}
+						return "other:element of a " + typeNameOf(x.Type) + " literal"
+					case *ast.KeyValueExpr:
+						if k, ok := x.Key.(*ast.Ident); ok && k.Name == "instanceID" {
+							if cl, ok := parents[par].(*ast.CompositeLit); ok && typeNameOf(cl.Type) == "baseRuntime" {
+								return "instanceID"
+							}
+						}
+						return "other:keyed element"
+					case *ast.AssignStmt:
+						// id := counter.Add(1): follow the local
+						if depth < 2 && len(x.Lhs) == 1 && len(x.Rhs) == 1 {
+							if id, ok := x.Lhs[0].(*ast.Ident); ok && id.Obj != nil {
+								res := ""
+								ast.Inspect(fd.Body, func(u ast.Node) bool {
+									if uid, ok := u.(*ast.Ident); ok && uid.Obj == id.Obj && uid != id {
+										c := classify(uid, depth+1)
+										if res == "" || (res == "instanceID" && c != "instanceID") {
+											res = c
+										}
+									}
+									return true
+								})
+								if res == "" {
+									return "unknown:value dropped"
+								}
+								return res
+							}
+						}
+						return "other:assignment"
+					case *ast.ExprStmt:
+						return "dropped"
+					case *ast.BinaryExpr:
+						return "other:operator"
+					case *ast.IfStmt, *ast.SwitchStmt, *ast.ForStmt:
+						return "other:condition"
+					case *ast.IndexExpr:
+						return "other:index"
+					case *ast.ReturnStmt:
+						return "other:returned"
+					default:
+						return fmt.Sprintf("unknown:%T", par)
+					}
+				}
+			}
+			ast.Inspect(fd.Body, func(n ast.Node) bool {
+				if id, ok := n.(*ast.Ident); ok && id.Name == name && p.isPkgLevel(id) {
+					c := classify(id, 0)
+					if c == "dropped" {
+						return true
+					}
+					e := [2]string{fn, c}
+					if !seen[e] {
+						seen[e] = true
+						out = append(out, e)
+					}
+				}
+				return true
+			})
+		}
+	}
+	sort.Slice(out, func(i, j int) bool { return out[i][0]+out[i][1] < out[j][0]+out[j][1] })
 	return out, nil
 }
